@@ -4,6 +4,7 @@ import (
 	"fmt"
 	"math"
 	"math/big"
+	"strings"
 	"time"
 
 	dec "github.com/woodsbury/decimal128"
@@ -341,11 +342,18 @@ func init() {
 		return fmt.Sprint(f, " ", why), c.Want, nil
 	}
 	Replayers["FromFloat"] = func(c eng.Case) (string, string, error) {
-		f, _, err := big.ParseFloat(c.Args[0], 10, 20000, big.ToNearestEven)
+		var txt string
+		var prec uint
+		if i := strings.IndexByte(c.Args[0], '@'); i > 0 {
+			txt = c.Args[0][:i]
+			fmt.Sscan(c.Args[0][i+1:], &prec)
+		} else {
+			return "", "", fmt.Errorf("no replay for %q", c.Args[0])
+		}
+		f, _, err := big.ParseFloat(txt, 0, prec, big.ToNearestEven)
 		if err != nil {
 			return "", "", err
 		}
-		f.SetPrec(f.MinPrec())
 		return V(dec.FromFloat(f)).String(), c.Want, nil
 	}
 	Checks["C09"] = Check{C09, "exploration"}
@@ -502,12 +510,13 @@ func C09(r *eng.Run) {
 				if err != nil {
 					continue
 				}
-				fs = append(fs, bf{f, f.Text('g', -1)}, bf{new(big.Float).Neg(f), "-" + f.Text('g', -1)})
+				nf := new(big.Float).Neg(f)
+				fs = append(fs, bf{f, fmt.Sprintf("%s@%d", f.Text('p', 0), f.Prec())}, bf{nf, fmt.Sprintf("%s@%d", nf.Text('p', 0), nf.Prec())})
 			}
 		}
 	}
 	for _, f := range []float64{0, math.Copysign(0, -1), 1, 0.1, 1.0 / 3, math.MaxFloat64, math.SmallestNonzeroFloat64, 1e22} {
-		fs = append(fs, bf{big.NewFloat(f), fmt.Sprint(f)})
+		fs = append(fs, bf{big.NewFloat(f), fmt.Sprintf("%s@53", big.NewFloat(f).Text('p', 0))})
 	}
 	fs = append(fs, bf{new(big.Float).SetInf(false), "+Inf"}, bf{new(big.Float).SetInf(true), "-Inf"})
 	r.Bounds["big_floats"] = len(fs)
